@@ -139,11 +139,36 @@ pub fn family(kind: u32, n: usize) -> (String, &'static str) {
         16 => (rep("[a-z]", n), "many_brackets"),
         17 => (format!("\\u{{{}}}", rep("0", n) + "41"), "long_escape"),
         18 => (rep("(?i:a", n.min(250)) + &rep(")", n.min(250)), "nested_modifiers"),
+        20 => {
+            // towers of counted groups whose bodies hide a loop inside a lookaround
+            let mut s = "(?:ab)*".to_string();
+            for _ in 0..tower_depth(n) {
+                s = format!("(?:(?={})c){{5}}", s);
+            }
+            (s, "lookaround_count_towers")
+        }
+        21 => {
+            let mut s = "(?:ab)+".to_string();
+            for _ in 0..tower_depth(n) {
+                s = format!("(?:(?<!{})c|d){{4}}", s);
+            }
+            (s, "lookbehind_count_towers")
+        }
         _ => (format!("[\\q{{{}}}]", vec!["ab"; n].join("|")), "many_strings_v"),
     }
 }
 
-const NFAM: u32 = 20;
+const NFAM: u32 = 22;
+
+fn tower_depth(n: usize) -> usize {
+    match n {
+        0..=10 => 4,
+        11..=300 => 6,
+        301..=5000 => 7,
+        5001..=70000 => 8,
+        _ => 3 + n % 7,
+    }
+}
 
 fn sizes(t: Tier) -> Vec<usize> {
     match t {
@@ -211,6 +236,10 @@ pub fn run(ctx: &Ctx) -> i32 {
     ctx.run_variant(&V_RAW, ctx.scale(300_000, 5_000_000));
     ctx.run_variant(&V_SOUP, ctx.scale(600_000, 10_000_000));
     ctx.run_variant(&V_MUT, ctx.scale(300_000, 5_000_000));
+    if std::env::var("VERIF_SUMMARY_ONLY").is_err() {
+        // the same inputs with debug assertions and overflow checks (arithmetic on loop / group ids, table indexes)
+        ctx.run_other_build("chk(debug-assertions,overflow-checks)", "target/chk/check");
+    }
     ctx.finish(
         "exploration",
         "(i) arbitrary code point sequences <= 64 incl. surrogates (never above 0x10FFFF); (ii) token soup: 1-10 (14) fragments from ~230 syntax fragments (every bracket, quantifier shape, escape family, group opener, v-mode operator, property names); (iii) valid generated patterns mutated by insert/delete/duplicate/swap/replace and compiled under another mode; (iv) 20 size-parametric adversarial families (alternatives, nesting of groups/lookarounds/classes/modifiers, group/loop counts, class members, long literals, huge counts, count towers, duplicate names, string sets) at sizes up to 70k (300k thorough), compiled on a thread with the default 2 MiB stack. All flag sets, opt and no_opt. Oracle: from_unicode returns Ok or Err - no panic (catch_unwind), no process death (supervisor + case journal), within a deterministic tick budget A + B*n*log2(n+2) (hook). Non-trivial = the input contains one of ( [ { \\ | * + ? (families: always).",
